@@ -136,7 +136,7 @@ def main():
         hooks=dict(guard="kentbeck_bplustree3_verif",
                    enable="Rust: RUSTFLAGS=--cfg kentbeck_bplustree3_verif (harness/rust/.cargo/config.toml); C extension: -DKENTBECK_BPLUSTREE3_VERIF",
                    baseline_off_cmd="cd /repo && cargo test --workspace --no-fail-fast --offline",
-                   source_commits=["c76c0f7", "5c8db38"], add_only=True),
+                   source_commits=["c76c0f7", "5c8db38", "5ca51f7"], add_only=True),
         engines=[dict(name="coq-model+correspondence", path="vp", serves_properties=sorted(claimed),
                       kind_free_text="Coq 8.16 proofs about hand-written executable models; extracted OCaml models run against the real implementation on generated histories (outputs and full state dumps compared); direct oracles search for failing inputs")],
         checks=checks,
